@@ -46,6 +46,21 @@ theorem unhex_hexDigit (d : Nat) (h : d < 16) : unhex (hexDigit d) = some d := b
     simp only [h1, if_false, h2, and_self, if_true]
     congr 1; omega
 
+/-! ### signed bytes -/
+
+theorem toByte_lt (z : Int) : toByte z < 256 := by
+  unfold toByte; omega
+
+/-- the two's-complement byte represents exactly the signed values `[-128, 127]`. -/
+theorem fromByte_toByte (z : Int) (h1 : -128 ≤ z) (h2 : z ≤ 127) : fromByte (toByte z) = z := by
+  unfold fromByte toByte; split <;> omega
+
+theorem toByte_fromByte (n : Nat) (h : n < 256) : toByte (fromByte n) = n := by
+  unfold fromByte toByte; split <;> omega
+
+theorem fromByte_range (n : Nat) (h : n < 256) : -128 ≤ fromByte n ∧ fromByte n ≤ 127 := by
+  unfold fromByte; split <;> omega
+
 /-! ### reading from a flat list -/
 
 theorem readFlat_append (xs rest : List Nat) :
@@ -112,6 +127,7 @@ theorem WT_shape (f : Fmt) : ∀ v, WT f v → Shape f v := by
   | uint w => intro v ⟨n, hv, _⟩; exact ⟨n, hv⟩
   | raw n => intro v h; exact h
   | hex2 st => intro v ⟨n, hv, _⟩; exact ⟨n, hv⟩
+  | shex2 => intro v ⟨z, hv, _⟩; exact ⟨z, hv⟩
   | framed pre f post ih => intro v h; exact ih v h
   | pair a b iha ihb => intro v ⟨x, y, hv, hx, hy⟩; exact ⟨x, y, hv, iha x hx, ihb y hy⟩
   | vec mg w f ih => intro v ⟨vs, hv, _, _, hall⟩; exact ⟨vs, hv, fun x hx => ih x (hall x hx)⟩
@@ -136,6 +152,7 @@ theorem size_exact_shape (f : Fmt) : ∀ v, Shape f v → (enc f v).length = siz
   | uint w => intro v ⟨n, hv⟩; subst hv; simp [enc, size, leBytes_length]
   | raw n => intro v ⟨bs, hv, hl⟩; subst hv; simp [enc, size, hl]
   | hex2 st => intro v ⟨n, hv⟩; subst hv; simp [enc, size]
+  | shex2 => intro v ⟨z, hv⟩; subst hv; simp [enc, size]
   | framed pre f post ih =>
     intro v h
     simp only [enc, size, List.length_append, ih v h]
@@ -190,6 +207,18 @@ theorem roundtrip (f : Fmt) :
     have hv : hexVal st n = n := by
       cases st <;> simp only [hexVal, hexBound] at hn ⊢ <;> split <;> omega
     simp only [enc, decG, hr, hp, hv]
+  | shex2 =>
+    intro v rest ⟨z, hv, hz1, hz2⟩; subst hv
+    have hlt := toByte_lt z
+    have h1 : toByte z / 16 % 16 < 16 := Nat.mod_lt _ (by decide)
+    have h2 : toByte z % 16 < 16 := Nat.mod_lt _ (by decide)
+    have hr : readFlat 2 ([hexDigit (toByte z / 16 % 16), hexDigit (toByte z % 16)] ++ rest)
+        = some ([hexDigit (toByte z / 16 % 16), hexDigit (toByte z % 16)], rest) :=
+      readFlat_append' 2 _ rest rfl
+    have hp : hexPair (hexDigit (toByte z / 16 % 16)) (hexDigit (toByte z % 16)) = some (toByte z) := by
+      simp only [hexPair, unhex_hexDigit _ h1, unhex_hexDigit _ h2]
+      congr 1; omega
+    simp only [enc, decG, hr, hp, fromByte_toByte z hz1 hz2]
   | framed pre f post ih =>
     intro v rest h
     simp only [WT] at h
@@ -247,6 +276,11 @@ theorem trunc_err (f : Fmt) :
     rw [readFlat_short]; simp; omega
   | hex2 st =>
     intro v k ⟨n, hv, _⟩ hk; subst hv
+    simp only [enc, List.length_cons, List.length_nil] at hk
+    simp only [dec, decG, enc]
+    rw [readFlat_short]; simp; omega
+  | shex2 =>
+    intro v k ⟨z, hv, _⟩ hk; subst hv
     simp only [enc, List.length_cons, List.length_nil] at hk
     simp only [dec, decG, enc]
     rw [readFlat_short]; simp; omega
@@ -401,6 +435,20 @@ theorem decG_hom {σ τ : Type} (rd₁ : Nat → σ → Option (List Nat × σ))
     | none => rw [hs] at h1; simp at h1; simp [decG, hs, ← h1]
     | some p => obtain ⟨bs, s'⟩ := p; rw [hs] at h1; simp at h1; simp [decG, hs, ← h1]
   | hex2 st =>
+    intro s
+    have h1 := hrd 2 s
+    cases hs : rd₁ 2 s with
+    | none => rw [hs] at h1; simp at h1; simp [decG, hs, ← h1]
+    | some p =>
+      obtain ⟨bs, s'⟩ := p; rw [hs] at h1; simp at h1
+      simp only [decG, hs, ← h1]
+      match bs with
+      | [] => simp
+      | [_] => simp
+      | [a, b] =>
+        cases hp : hexPair a b <;> simp [hp]
+      | _ :: _ :: _ :: _ => simp
+  | shex2 =>
     intro s
     have h1 := hrd 2 s
     cases hs : rd₁ 2 s with
@@ -605,6 +653,16 @@ theorem enc_isBytes (f : Fmt) : ∀ v, FmtBytes f → ValBytes f v → IsBytes (
       · rw [h]; exact hexDigit_lt _ (Nat.mod_lt _ (by decide))
       · rw [h]; exact hexDigit_lt _ (Nat.mod_lt _ (by decide))
     | _ => simpa [enc] using isBytes_nil
+  | shex2 =>
+    intro v _ _
+    cases v with
+    | int z =>
+      intro b hb
+      simp only [enc, List.mem_cons, List.not_mem_nil, or_false] at hb
+      rcases hb with h | h
+      · rw [h]; exact hexDigit_lt _ (Nat.mod_lt _ (by decide))
+      · rw [h]; exact hexDigit_lt _ (Nat.mod_lt _ (by decide))
+    | _ => simpa [enc] using isBytes_nil
   | framed pre f post ih =>
     intro v ⟨h1, h2, h3⟩ hv
     simp only [enc]
@@ -665,6 +723,7 @@ theorem wtb_sound (f : Fmt) : ∀ v, wtb f v = true → WT f v := by
   | uint w => intro v h; cases v <;> simp_all [wtb, WT]
   | raw n => intro v h; cases v <;> simp_all [wtb, WT]
   | hex2 st => intro v h; cases v <;> simp_all [wtb, WT]
+  | shex2 => intro v h; cases v <;> simp_all [wtb, WT]
   | framed pre f post ih => intro v h; exact ih v (by simpa [wtb] using h)
   | pair a b iha ihb =>
     intro v h
